@@ -39,7 +39,9 @@ def run(ck):
     if ok:
         d = {x["var"]: x for x in f.events("decl")}
         a0, a1 = cas[0]["args"][0].get("v"), cas[0]["args"][1].get("v")
-        ok = a0 in d and a1 in d and "State::Idle" in ((d[a0].get("init") or {}).get("t") or "") and "State::Used" in ((d[a1].get("init") or {}).get("t") or "")
+        # expected: a local holding State::Idle; desired: State::Used, named or written in place
+        desired = ((d[a1].get("init") or {}).get("t") or "") if a1 in d else (cas[0]["args"][1].get("t") or "")
+        ok = a0 in d and "State::Idle" in ((d[a0].get("init") or {}).get("t") or "") and "State::Used" in desired and "State::Idle" not in desired
         rets = [e for e in f.events("return")]
         ok = ok and len(rets) == 1 and "compare_exchange_strong" in (rets[0].get("t") or "")
     ck.ob("C15-R1", "tryUse/single-CAS-Idle->Used", ok, f.loc, f, "return state_.compare_exchange_strong(Idle, Used)")
@@ -107,11 +109,11 @@ def run(ck):
         where = fn.base if not fn.is_lambda else "lambda in " + strip_tmpl(fn.d.get("parentName") or "")
         ok = False
         why = "unexpected caller"
-        if where == CONN + "processRequestQueue":
-            ok, why = (e.get("recv") or {}).get("t") == "this", "the connection's own queue, drained after connect"
-        elif where == "lambda in " + CONN + "perform":
-            # Connection::perform is itself only called on a freshly claimed connection (checked below)
-            ok, why = (e.get("recv") or {}).get("t") == "this", "Connection::perform on a claimed connection"
+        own_entries = {CONN + "processRequestQueue", CONN + "perform", CONN + "asyncPerform"}
+        if prog.owner(fn).base.startswith(CONN) and (e.get("recv") or {}).get("t") == "this" and lib.only_reached_from(prog, fn, own_entries):
+            # inside the connection itself: its own queue drained after connect, or perform()/asyncPerform() (directly, in their
+            # promise lambda, or in a private helper only they reach) -- which are only called on a freshly claimed connection (below)
+            ok, why = True, "the connection's own entry points (perform / asyncPerform / processRequestQueue), on this"
         elif where == CLIENT + "processRequestQueue":
             rv = (e.get("recv") or {}).get("root")
 
@@ -389,8 +391,12 @@ def run(ck):
             "find the slot free and must not be erased afterwards", 1)
     hre = lib.single(prog, E + "Transport::handleReadableEntry")
     hto = [e for e in hre.calls(lambda e: (e.get("callee") or "") == CONN + "handleTimeout")]
-    ers = [e for e in hre.calls(lambda e: e.base_callee() == "std::unordered_map::erase" and strip_tmpl((e.get("recv") or {}).get("f") or "") == E + "Transport::timeouts")]
-    ck.require(hto and ers, "handleTimeout call / timeouts.erase not found in handleReadableEntry")
+    is_terase = lambda e: e["k"] == "call" and e.base_callee() == "std::unordered_map::erase" and strip_tmpl((e.get("recv") or {}).get("f") or "") == E + "Transport::timeouts"
+    s8 = lib.Summaries(prog)
+    may_erase = s8.lift_may(is_terase, "timeouts-erase")
+    ers = [e for e in hre.events("call") if may_erase(e)]
+    ck.require(hto and ers, "handleTimeout call / timeouts.erase not found in handleReadableEntry (or the helpers it calls)")
+    # no erase (direct or inside a helper) can run after the callback; one lies before it
     after = [e for e in cfg.events_after(hre, hto[0]) if any(e is x for x in ers)]
     before = [x for x in ers if cfg.ev_dominates(cfg.dominators(hre), x, hto[0]) or hto[0].block in cfg.reachable_blocks(hre, x.block)]
     ck.ob("C15-R8", "handleReadableEntry/erase-before-callback", bool(before) and not after, hto[0].loc, hre,
